@@ -73,6 +73,9 @@ func deserializeAspectFrom(data []byte, as *font.Aspect) (int, error) {
 	as.Style = font.Style(data[0])
 	as.Weight = font.Weight(deserializeFloat(data[1:]))
 	as.Stretch = font.Stretch(deserializeFloat(data[5:]))
+	if as.Weight != as.Weight || as.Stretch != as.Stretch { // NaN never matches, not even itself
+		return 0, errors.New("invalid Aspect (NaN)")
+	}
 	return aspectSize, nil
 }
 
